@@ -29,7 +29,7 @@ class Recorder(object):
 def build_service(rec, behaviours=None):
     """Returns a fresh Service subclass. `behaviours` may carry callables the
     user functions consult (fault injection from the harness)."""
-    from spyne import Service, rpc, Integer, Unicode, ByteArray, Iterable, Fault, ComplexModel, Array
+    from spyne import Service, rpc, Integer, Unicode, ByteArray, Iterable, Fault, ComplexModel, Array, File
     from spyne.model.complex import XmlAttribute
     from spyne.error import (RequestTooLongError, ResourceNotFoundError, RequestNotAllowed,
                              InvalidCredentialsError)
@@ -260,7 +260,49 @@ def build_service(rec, behaviours=None):
                 rec.enter('echo_frag', None if c is None else show(c.x), None if c is None else show(c.y))
                 return None if c is None else show(c.x)
 
+        if beh.get('files'):
+            # (opt-in: File values in each of the forms File.Value takes; HttpRpc writes them as the body)
+            @rpc(Unicode, _returns=File)
+            def file_out(ctx, how):
+                rec.enter('file_out', how)
+                payload = FILE_PAYLOAD
+                if how == 'chunks':
+                    return File.Value(data=[payload[:7000], payload[7000:]], type='application/x-vf')
+                if how == 'one_chunk':
+                    return File.Value(data=[payload], type='application/x-vf')
+                if how == 'empty':
+                    return File.Value(data=[b''], type='application/x-vf')
+                path = file_payload_path()
+                if how == 'path':
+                    return File.Value(path=path, type='application/x-vf')
+                if how == 'handle':
+                    return File.Value(handle=open(path, 'rb'), type='application/x-vf')
+                if how == 'rolled_over':
+                    v = File.Value(path=path, type='application/x-vf')
+                    v.rollover()       # path -> handle + data=(mmap,): how the library itself normalizes file-backed values
+                    return v
+                if how == 'mmap_tuple':
+                    import mmap
+                    h = open(path, 'rb')
+                    return File.Value(handle=h, data=(mmap.mmap(h.fileno(), 0, access=mmap.ACCESS_READ),), type='application/x-vf')
+                raise Fault('Client.NoSuchForm', how)
+
     return MiniService, Item
+
+
+FILE_PAYLOAD = bytes(range(256)) * 60
+_file_path = [None]
+
+
+def file_payload_path():
+    import tempfile, atexit, os
+    if _file_path[0] is None or not os.path.exists(_file_path[0]):
+        fd, fn = tempfile.mkstemp(prefix='vf-file-', suffix='.bin')
+        os.write(fd, FILE_PAYLOAD)
+        os.close(fd)
+        _file_path[0] = fn
+        atexit.register(lambda: os.path.exists(fn) and os.unlink(fn))
+    return _file_path[0]
 
 
 PROTOCOLS = ('soap11', 'soap12', 'xml', 'json', 'yaml', 'msgpack', 'msgpackrpc', 'httprpc-json', 'httprpc')
